@@ -621,11 +621,18 @@ func c16Heal(c *Ctx, idx int, hosts, conns int, fault string) {
 	cl, err := bed.ReadyClient(primitive.ProtocolVersion4, "")
 	if err == nil {
 		reached := map[int]bool{}
-		for k := 0; k < 4*hosts; k++ {
-			f, err := cl.CallF(BuildRequest(primitive.ProtocolVersion4, int16(k+1), KQuery, true, NewTok(), primitive.ConsistencyLevelOne), 10*time.Second)
-			if err == nil {
-				if ri := DecodeReply("", f); ri.HasEcho {
-					reached[ri.Echo.Host] = true
+		// the backend has seen the replacement connection's STARTUP; the proxy may need a moment more before it routes to
+		// it: up to 10 rounds of 4 x hosts requests before a healed host counts as starved
+		for round := 0; round < 10 && len(reached) < hosts; round++ {
+			if round > 0 {
+				time.Sleep(20 * time.Millisecond)
+			}
+			for k := 0; k < 4*hosts; k++ {
+				f, err := cl.CallF(BuildRequest(primitive.ProtocolVersion4, int16(round*100+k+1), KQuery, true, NewTok(), primitive.ConsistencyLevelOne), 10*time.Second)
+				if err == nil {
+					if ri := DecodeReply("", f); ri.HasEcho {
+						reached[ri.Echo.Host] = true
+					}
 				}
 			}
 		}
